@@ -24,6 +24,20 @@ type C05Case struct {
 	Order []int  `json:"order"` // interleaving: sequence of call indices, a permutation of the multiset given by Shape
 	Ser   bool   `json:"ser"`
 	Pad   int    `json:"pad,omitempty"` // payloads padded to this many bytes (0 = 4-byte tokens)
+	// IDBase (server side): the scripted caller numbers its calls IDBase, IDBase+1, ... (0 = 100). A server must keep calls
+	// apart for every id value a peer may use: late in a long-lived connection's life, or far out in the uint64 range.
+	IDBase uint64 `json:"id_base,omitempty"`
+}
+
+// c05IDBases: small ids, the ids a goat client reaches after 55 296 and 1 114 112 calls (where a rune conversion would
+// stop being injective), beyond 32 bits, the top bit, the very end of the range
+var c05IDBases = []uint64{100, 100, 0xD7FE, 0xD800, 0x10FFFE, 0x110000, 1 << 32, 1 << 63, ^uint64(0) - 8}
+
+func (c C05Case) id(call int) uint64 {
+	if c.IDBase == 0 {
+		return uint64(100 + call)
+	}
+	return c.IDBase + uint64(call)
 }
 
 // multiset permutations of {0^s0, 1^s1, ...} in lexicographic order
@@ -241,7 +255,7 @@ func execC05(t *testing.T, c C05Case) (v Verdict) {
 		for _, call := range c.Order {
 			e := scripts[call][0]
 			scripts[call] = scripts[call][1:]
-			_ = raw.Write(bg, e.Build(uint64(100+call), kit.FullMethod(fmt.Sprintf("m%d", call)), "c0", kit.ServerName))
+			_ = raw.Write(bg, e.Build(c.id(call), kit.FullMethod(fmt.Sprintf("m%d", call)), "c0", kit.ServerName))
 			kit.Settle()
 		}
 		replies = map[uint64][][]byte{}
@@ -300,8 +314,8 @@ func execC05(t *testing.T, c C05Case) (v Verdict) {
 			for _, b := range want {
 				wantRe = append(wantRe, append([]byte("re:"), b...))
 			}
-			if !kit.BytesEq(replies[uint64(100+i)], wantRe) {
-				v.failf("id %d carried responses %v, want the echoes of its own requests", 100+i, digests(replies[uint64(100+i)]))
+			if !kit.BytesEq(replies[c.id(i)], wantRe) {
+				v.failf("id %d carried responses %v, want the echoes of its own requests", c.id(i), digests(replies[c.id(i)]))
 			}
 		}
 	}
@@ -311,7 +325,7 @@ func execC05(t *testing.T, c C05Case) (v Verdict) {
 			switches++
 		}
 	}
-	v.Info = kit.CaseInfo{Labels: []string{"side=" + c.Side, fmt.Sprintf("calls=%d", k), fmt.Sprintf("pooled_payloads=%v", c.Pad > 1024)}, NonTrivial: switches >= 1,
+	v.Info = kit.CaseInfo{Labels: []string{"side=" + c.Side, fmt.Sprintf("calls=%d", k), fmt.Sprintf("pooled_payloads=%v", c.Pad > 1024), fmt.Sprintf("high_ids=%v", c.IDBase > 1000)}, NonTrivial: switches >= 1,
 		Key: fmt.Sprintf("%+v", c), Sample: map[string]any{"side": c.Side, "envelopes_per_call": c.Shape, "interleaving": c.Order}}
 	if v.Fail != "" {
 		v.Detail = map[string]any{"wire": tapSummary(tap, 60)}
@@ -325,7 +339,11 @@ func TestC05Enum(t *testing.T) {
 	for _, side := range []string{"client", "server"} {
 		for _, sh := range c05Shapes() {
 			for _, p := range multisetPerms(sh) {
-				cases = append(cases, C05Case{Side: side, Shape: sh, Order: p, Ser: len(p)%2 == 0})
+				cs := C05Case{Side: side, Shape: sh, Order: p, Ser: len(p)%2 == 0}
+				if side == "server" {
+					cs.IDBase = c05IDBases[len(cases)%len(c05IDBases)]
+				}
+				cases = append(cases, cs)
 			}
 		}
 	}
@@ -335,6 +353,9 @@ func TestC05Enum(t *testing.T) {
 
 func genC05(t *rapid.T) C05Case {
 	c := C05Case{Side: rapid.SampledFrom([]string{"client", "server"}).Draw(t, "side"), Ser: rapid.Bool().Draw(t, "ser"), Pad: rapid.SampledFrom([]int{0, 0, 1100, 1500, 5000, 20000}).Draw(t, "pad")}
+	if c.Side == "server" {
+		c.IDBase = rapid.SampledFrom(c05IDBases).Draw(t, "id_base")
+	}
 	k := rapid.IntRange(2, 8).Draw(t, "k")
 	left := []int{}
 	for i := 0; i < k; i++ {
